@@ -1,47 +1,3 @@
-// history h is a prefix of all; the next element all[h.len()] is new: visited(h.push(x), k) <==> visited(h, k) || k == x.0,
-// and x.0 itself has not been visited when keys are distinct.
-pub proof fn lemma_visited_next<K, V>(h: Seq<(&K, &V)>, all: Seq<(&K, &V)>)
-    requires
-        h.len() < all.len(),
-        forall|i: int| 0 <= i < h.len() ==> h[i] == all[i],
-        forall|i: int, j: int| 0 <= i < j < all.len() ==> *(#[trigger] all[i]).0 != *(#[trigger] all[j]).0,
-    ensures
-        !visited(h, *all[h.len() as int].0),
-        forall|k: K| visited(h.push(all[h.len() as int]), k) <==> (visited(h, k) || k == *all[h.len() as int].0),
-{
-    let x = all[h.len() as int];
-    let h2 = h.push(x);
-    if visited(h, *x.0) {
-        let i = choose|i: int| 0 <= i < h.len() && *(#[trigger] h[i]).0 == *x.0;
-        assert(all[i] == h[i]);
-    }
-    assert forall|k: K| visited(h2, k) <==> (visited(h, k) || k == *x.0) by {
-        if visited(h2, k) {
-            let i = choose|i: int| 0 <= i < h2.len() && *(#[trigger] h2[i]).0 == k;
-            if i < h.len() { assert(h[i] == h2[i]); }
-        }
-        if visited(h, k) {
-            let i = choose|i: int| 0 <= i < h.len() && *(#[trigger] h[i]).0 == k;
-            assert(h2[i] == h[i]);
-        }
-        if k == *x.0 { assert(h2[h.len() as int] == x); }
-    }
-}
-
-pub proof fn lemma_visited_all<K, V>(rem: Seq<(&K, &V)>, m: Map<K, V>)
-    requires entries_of(rem, m),
-    ensures covers(rem, m),
-{
-    assert forall|k: K| visited(rem, k) <==> #[trigger] m.contains_key(k) by {
-        if visited(rem, k) {
-            let i = choose|i: int| 0 <= i < rem.len() && *(#[trigger] rem[i]).0 == k;
-        }
-        if m.contains_key(k) {
-            let i = choose|i: int| 0 <= i < rem.len() && *(#[trigger] rem[i]).0 == k && *rem[i].1 == m[k];
-        }
-    }
-}
-
 pub proof fn lemma_outer_init<A, L>(local: Map<A, BTreeMap<L, SeqNum>>, remote: Map<A, BTreeMap<L, SeqNum>>, needs: Map<A, BTreeMap<L, Rng>>, h: Seq<(&A, &BTreeMap<L, SeqNum>)>)
     requires needs == Map::<A, BTreeMap<L, Rng>>::empty(), h.len() == 0,
     ensures outer_inv(local, remote, needs, h),
